@@ -11,7 +11,8 @@ GEN_MODULES = [("GenCountMin", ["countmin/serialization.rs", "countmin/sketch.rs
                 ["PREAMBLE_LONGS_SHORT", "SERIAL_VERSION", "FLAGS_IS_EMPTY", "LONG_SIZE_BYTES", "MAX_TABLE_ENTRIES"])]
 TYPES = [(0, 255), (1, 65535), (2, 2**32 - 1), (3, 2**64 - 1), (4, 127), (5, 32767), (6, 2**31 - 1), (7, 2**63 - 1)]
 OPNAMES = {0: "new", 1: "update", 2: "estimate", 3: "serialize", 4: "merge", 5: "halve", 6: "decay",
-           7: "roundtrip", 8: "total", 9: "deserialize", 10: "fork", 11: "bounds"}
+           7: "roundtrip", 8: "total", 9: "deserialize", 10: "fork", 11: "bounds",
+           12: "update_item", 13: "estimate_item", 14: "bounds_item"}
 
 
 def row_seeds(seed, nh):
@@ -20,6 +21,58 @@ def row_seeds(seed, nh):
 
 def buckets(item, seeds, nb):
     return [pyref.murmur3_x64_128(pyref.le8(item), s)[0] % nb for s in seeds]
+
+
+# ---- items that are not i64: std's Hash impl makes several writes (or one long write) into the MurmurHash3 hasher.
+# kind 0 &str (bytes, then a 0xff write), 1 (u64,u64), 2 u128 (one 16-byte write), 3 &[u8] (8-byte length prefix, then
+# the bytes), 4 (u64,u64,u64,u64).  An item is known to the model and the oracles by an id outside the i64 range.
+STR_LENS = [0, 1, 7, 8, 14, 15, 16, 17, 23, 24, 31, 32, 33, 47, 48, 100]
+
+
+def special_item(rng, k):
+    """returns (id, kind, payload, byte stream fed to the hasher)"""
+    ident = -(2**63) - 1 - k
+    kind = rng.choice([0, 0, 0, 1, 2, 3, 3, 4])
+    if kind == 0:
+        pl = [rng.randrange(32, 127) for _ in range(rng.choice(STR_LENS))]
+        return ident, kind, pl, bytes(pl) + b"\xff"
+    if kind == 1:
+        pl = [rng.getrandbits(64), rng.choice([0, rng.getrandbits(64)])]
+        return ident, kind, pl, b"".join(pyref.le8(v) for v in pl)
+    if kind == 2:
+        pl = [rng.getrandbits(64), rng.choice([0, rng.getrandbits(64)])]       # lo, hi
+        return ident, kind, pl, pyref.le8(pl[0]) + pyref.le8(pl[1])
+    if kind == 3:
+        pl = [rng.randrange(256) for _ in range(rng.choice([0, 1, 7, 8, 9, 15, 16, 23, 24, 40]))]
+        return ident, kind, pl, pyref.le8(len(pl)) + bytes(pl)
+    pl = [rng.getrandbits(64) for _ in range(4)]
+    return ident, kind, pl, b"".join(pyref.le8(v) for v in pl)
+
+
+def stream_buckets(data, seeds, nb):
+    return [pyref.murmur3_x64_128(data, s)[0] % nb for s in seeds]
+
+
+class Items:
+    """the items of one case: i64 values and special items; builds update / estimate / bounds ops for either"""
+
+    def __init__(self, rng, seeds, nb, i64s, nspecial):
+        self.bk, self.sp = {}, {}
+        for x in i64s:
+            self.bk[x] = buckets(x, seeds, nb)
+        for k in range(nspecial):
+            ident, kind, pl, data = special_item(rng, k)
+            self.bk[ident] = stream_buckets(data, seeds, nb); self.sp[ident] = [kind] + pl
+        self.dom = list(self.bk)
+
+    def update(self, s, x, w):
+        return (12, [s, x, w] + self.bk[x] + self.sp[x]) if x in self.sp else (1, [s, x, w] + self.bk[x])
+
+    def estimate(self, s, x):
+        return (13, [s, x] + self.bk[x] + self.sp[x]) if x in self.sp else (2, [s, x] + self.bk[x])
+
+    def bounds(self, s, x):
+        return (14, [s, x] + self.bk[x] + self.sp[x]) if x in self.sp else (11, [s, x] + self.bk[x])
 
 
 def f64bits(x):
@@ -38,7 +91,8 @@ def gen_case(rng, cid, tier, focus=None):
     ndom = rng.choice([1, 2, 5, 12, 40])
     dom = [rng.choice([0, 1, -1, 2**63 - 1, -2**63, rng.getrandbits(64) - 2**63, rng.randint(-50, 50)]) for _ in range(ndom)]
     dom = list(dict.fromkeys(dom))
-    bk = {x: buckets(x, seeds, nb) for x in dom}
+    items = Items(rng, seeds, nb, dom, rng.choice([0, 1, 3, 6]))
+    dom = items.dom; bk = items.bk
     unsigned = ty < 4
     nslots = rng.choice([1, 1, 2, 3])
     nops = rng.choice([5, 20, 60]) if tier == "quick" else rng.choice([20, 100, 300])
@@ -59,13 +113,13 @@ def gen_case(rng, cid, tier, focus=None):
             if rng.random() < 0.05:
                 w = 0
             totals[s] += w
-            ops.append((1, [s, x, w] + bk[x]))
+            ops.append(items.update(s, x, w))
         elif r < 0.66:
             x = rng.choice(dom)
-            ops.append((2, [s, x] + bk[x]))
+            ops.append(items.estimate(s, x))
         elif r < 0.70:
             x = rng.choice(dom)
-            ops.append((11, [s, x] + bk[x]))
+            ops.append(items.bounds(s, x))
         elif r < 0.76:
             ops.append((3, [s]))
         elif r < 0.84 and nslots > 1:
@@ -86,7 +140,7 @@ def gen_case(rng, cid, tier, focus=None):
     unseen = [x for x in (12345, -777, 2**62) if x not in bk]
     for s in range(nslots):
         for x in dom:
-            ops.append((2, [s, x] + bk[x]))
+            ops.append(items.estimate(s, x))
         for x in unseen:
             ops.append((2, [s, x] + buckets(x, seeds, nb)))
         ops.append((8, [s]))
@@ -289,7 +343,7 @@ def gen_extreme_case(rng, cid, tier):
     elif k < 0.7:
         nh, nb = 255, 3
     elif k < 0.8:
-        nh, nb = 1, rng.choice([2**10, 2**12])
+        nh, nb = 1, rng.choice([64, 257])
     else:
         nh, nb = rng.choice([2, 4, 127]), rng.choice([3, 4, 5])
     seed = rng.choice([9001, 0, 1, 2**64 - 1, rng.getrandbits(64)])
@@ -298,17 +352,18 @@ def gen_extreme_case(rng, cid, tier):
     sh = pyref.seed_hash(seed); seeds = row_seeds(seed, nh)
     dom = [0, 1, -1, 2**63 - 1, -2**63, rng.randint(-9, 9)][:rng.choice([1, 3, 6])]
     dom = list(dict.fromkeys(dom))
-    bk = {x: buckets(x, seeds, nb) for x in dom}
+    items = Items(rng, seeds, nb, dom, rng.choice([0, 0, 2]))
+    dom = items.dom; bk = items.bk
     unsigned = ty < 4
     ops = [(0, [0]), (0, [1])]
     tot = [0, 0]
 
     def queries(s):
         x = rng.choice(dom)
-        ops.extend([(2, [s, x] + bk[x]), (11, [s, x] + bk[x]), (8, [s])])
+        ops.extend([items.estimate(s, x), items.bounds(s, x), (8, [s])])
 
     def upd(s, w):
-        x = rng.choice(dom); tot[s] += w; ops.append((1, [s, x, w] + bk[x]))
+        x = rng.choice(dom); tot[s] += w; ops.append(items.update(s, x, w))
 
     queries(0)                                   # bounds of an empty sketch
     plan = rng.choice(["fill", "fill", "split", "steps"])
@@ -347,7 +402,7 @@ def gen_extreme_case(rng, cid, tier):
             queries(0)
     queries(0); ops += [(3, [0]), (10, [0, 3]), (3, [3])]
     for x in dom:
-        ops.append((11, [3, x] + bk[x]))
+        ops.append(items.bounds(3, x))
     return Case(cid, [ty, nh, nb, seed, sh], ops, tag="cm-extreme-ty%d" % ty)
 
 
@@ -367,15 +422,15 @@ def gen(rng, tier, n=None, focus=None):
 def nontrivial(case, obs):
     """non-trivial: updates >= 2 distinct items and queries at least one; or forks a non-empty sketch and
     compares the twins; or feeds at least 3 images to deserialize of which one is accepted and one rejected"""
-    items = {a[1] for (c, a) in case.ops if c == 1 and a[2] > 0}
-    if len(items) >= 2 and any(c == 2 for (c, a) in case.ops):
+    items = {a[1] for (c, a) in case.ops if c in (1, 12) and a[2] > 0}
+    if len(items) >= 2 and any(c in (2, 13) for (c, a) in case.ops):
         return True
     if any(c == 10 for (c, a) in case.ops) and items:
         return True
     if case.tag.startswith("cm-foreign"):
         return [1] in [o for (c, a), o in zip(case.ops, obs or []) if c == 9] and any(c == 3 for (c, a) in case.ops)
     if case.tag.startswith("cm-extreme"):
-        return any(c == 11 for (c, a) in case.ops) and any(c == 1 and a[2] > 0 for (c, a) in case.ops)
+        return any(c in (11, 14) for (c, a) in case.ops) and any(c in (1, 12) and a[2] > 0 for (c, a) in case.ops)
     res = [o for (c, a), o in zip(case.ops, obs or []) if c == 9]
     return len(res) >= 3 and [1] in res and [-998] in res
 
